@@ -8,6 +8,10 @@ import RbV.Lemmas.QGramMatches
 import RbV.Lemmas.QGramIndex
 import RbV.Lemmas.QGramExactModel
 import RbV.Lemmas.KChainFwd
+import RbV.Lemmas.LcskppFinal
+import RbV.Lemmas.SdpkppUnion
+import RbV.Lemmas.KmerHash
+import RbV.Lemmas.Expand
 /-!
 # C19 — k-mer / q-gram indexing and sparse chaining are exact
 
@@ -253,6 +257,60 @@ theorem kmerMatches_unique (x y : List Nat) (k : Nat) (l : List (Nat × Nat)) (h
 
 example : kmerMatches [1, 2, 1, 2] [2, 1, 2] 2 = [(0, 1), (1, 0), (2, 1)] := by decide
 
+/-! ### the hash-map based matcher (mirror model `RbV/Model/KmerHash.lean`) -/
+section kmer_hash
+open RbV.Model.KmerHash RbV.Lemmas.KmerHash
+
+/-- **mirror model of `hash_kmers`** (hash map as a finite map: `entry(key).or_default().push(i)` / `get`): the vector
+stored under a k-mer is the ascending list of exactly the positions where it occurs (nothing stored ⇒ no occurrence) -/
+theorem hash_kmers_model_exact (seq : List Nat) (k : Nat) (key : List Nat) :
+    (hmGet key (hashKmers seq k)).getD [] = (List.range (seq.length + 1 - k)).filter (fun i => window k seq i = key) :=
+  hashKmers_get seq k key
+
+/-- **mirror models of `find_kmer_matches`, `find_kmer_matches_seq1_hashed`, `find_kmer_matches_seq2_hashed`** (scan one
+sequence, look each window up in the hash of the other, push the pairs, sort): all three return exactly the reference
+`kmerMatches` — the unique strictly sorted list of all pairs with equal k-mers — for all sequences and every k -/
+theorem find_kmer_matches_model_refines (x y : List Nat) (k : Nat) :
+    findKmerMatches x y k = kmerMatches x y k ∧ seq1Hashed (hashKmers x k) y k = kmerMatches x y k ∧
+    seq2Hashed x (hashKmers y k) k = kmerMatches x y k :=
+  ⟨findKmerMatches_correct x y k, seq1Hashed_correct x y k, seq2Hashed_correct x y k⟩
+
+example : (hmGet [1, 2] (hashKmers [1, 2, 1, 2] 2)).getD [] = [0, 2] ∧ kmerMatches [1, 2, 1, 2] [2, 1, 2] 2 = [(0, 1), (1, 0), (2, 1)] := by
+  rw [hash_kmers_model_exact]; decide
+
+end kmer_hash
+
+/-! ## `expand_kmer_matches` (mirror model `RbV/Model/Expand.lean`) -/
+section expand_model
+open RbV.Model.Expand RbV.Model.Lcskpp RbV.Lemmas.Expand
+
+/-- **the mirror model of `expand_kmer_matches` returns a match list the chaining routines accept**: for every strictly
+sorted seed list — whatever the sequences, `k` and the mismatch budget — both walks end by their own condition (no fuel
+error), the result is strictly lexicographically sorted (hence duplicate-free: a walk along a diagonal stays strictly
+between the neighbouring elements of that diagonal) and contains every seed -/
+theorem expand_model_sorted (seq1 seq2 : List Nat) (k : Nat) (ms : List M) (allowed : Nat) (hs : ms.Pairwise lexLt) :
+    ∃ r, expandKmerMatches seq1 seq2 k ms allowed = .ok r ∧ r.Pairwise lexLt ∧ ∀ m ∈ ms, m ∈ r :=
+  expand_model_ok seq1 seq2 k ms allowed hs
+
+/-- the combinatorial core: a sweep that pushes, for each element of a list sorted along every diagonal, only positions
+of its diagonal strictly between the previous element of that diagonal and itself, never pushes a position twice nor a
+position of the list -/
+theorem diagonal_sweep_pushes_new_positions (key : M → Int) (l : List M) (bs : List (List M))
+    (hs : DiagSorted key l) (hb : BlocksOk key [] l bs) : (l ++ bs.flatten).Nodup := by
+  obtain ⟨h1, h2, _⟩ := blocks_nodup key l [] bs (by simpa using hs) hb
+  rw [List.nodup_append]
+  refine ⟨diagSorted_nodup key hs, h1, ?_⟩
+  intro a ha b hb' hab
+  subst hab
+  exact h2 a hb' (by simpa using ha)
+
+example : ∃ r, expandKmerMatches [1, 2, 3, 4, 5, 6] [1, 2, 3, 9, 5, 6] 2 [(0, 0), (4, 4)] 1 = .ok r ∧ r.Pairwise lexLt ∧
+    (0, 0) ∈ r ∧ (4, 4) ∈ r := by
+  obtain ⟨r, h1, h2, h3⟩ := expand_model_sorted [1, 2, 3, 4, 5, 6] [1, 2, 3, 9, 5, 6] 2 [(0, 0), (4, 4)] 1 (by simp [lexLt])
+  exact ⟨r, h1, h2, h3 _ (by simp), h3 _ (by simp)⟩
+
+end expand_model
+
 /-! ## chains -/
 
 /-- the Boolean checker run on `lcskpp` / `sdpkpp` / union paths decides exactly: all indices are in range and
@@ -403,6 +461,195 @@ theorem dpScores_max_eq_opt (ms : List M) (k : Nat) (hk : 0 < k) (hs : ms.Pairwi
       · simp at h'; rw [h']; have := entry_memR hmv; simpa using this
 
 example : dpScores [(0, 0), (1, 1), (2, 2), (5, 5), (6, 9)] 3 = [3, 4, 5, 8, 8] := by decide
+
+/-! ## the `lcskpp` routine itself (mirror model `RbV/Model/Lcskpp.lean`: event sort, max-Fenwick sweep, traceback) -/
+section lcskpp_model
+open RbV.Model.Lcskpp RbV.Lemmas.Lcskpp
+
+/-- the model's sortedness assertion accepts exactly the strictly lexicographically sorted (hence duplicate-free) lists -/
+theorem lcskpp_model_assertion (ms : List M) : sortedStrict ms = true ↔ ms.Pairwise lexLt :=
+  sortedStrict_iff ms
+
+/-- … and on any other non-empty list the model stops with the assertion message (the Rust code panics) -/
+theorem lcskpp_model_refuses_unsorted (ms : List M) (k : Nat) (hne : ms ≠ []) (hs : ¬ ms.Pairwise lexLt) :
+    lcskpp ms k = .error "incoming matches must be sorted." := by
+  have h1 : ms.isEmpty = false := by cases ms with | nil => exact absurd rfl hne | cons _ _ => rfl
+  have h2 : sortedStrict ms = false := by
+    rw [Bool.eq_false_iff]; intro h; exact hs ((sortedStrict_iff ms).mp h)
+  simp [lcskpp, h1, h2]
+
+/-- **event order**: in the sorted event vector the end event of a match `q` that ends at or before the start of `p` in
+both sequences comes before the start event of `p` — also when the coordinates coincide (end events carry the smaller
+third component) — and the start event of a match comes before its own end event (`k ≥ 1`) -/
+theorem lcskpp_event_order (ms : List M) (k : Nat) (hk : 0 < k) (p q : Nat) (hq : q < ms.length) :
+    (nonov k (mAt ms q) (mAt ms p) = true → evLe (startEv ms p) (endEv ms k q) = false) ∧
+    evLe (endEv ms k p) (startEv ms p) = false := by
+  constructor
+  · intro hn
+    rw [Bool.eq_false_iff]; intro h
+    rw [evLe_iff] at h
+    simp only [startEv, endEv] at h
+    simp only [nonov, Bool.and_eq_true, decide_eq_true_eq] at hn
+    omega
+  · rw [Bool.eq_false_iff]; intro h
+    rw [evLe_iff] at h
+    simp only [startEv, endEv] at h
+    omega
+
+/-- **the loop invariant holds at every point of the sweep**: for every split of the sorted event vector, the state
+reached after the processed part satisfies `Inv` (tree = Fenwick run over exactly the published `(y+k, (score, index))` of the
+finished matches; finished cells carry the recurrence's score, started cells `k` + best dominated score; every predecessor
+pointer is justified; `best_dp` bounds the started cells and is attained or still `(k, 0)`) -/
+theorem lcskpp_sweep_invariant (ms : List M) (k : Nat) (hk : 0 < k) (hs : ms.Pairwise lexLt) (done rest : List Ev)
+    (h : sortedEvents ms k = done ++ rest) : Inv ms k done (done.foldl (stepEv ms k) (initSt ms k)) :=
+  sweep_inv_prefix hk hs h
+
+/-- **the Fenwick query of a start event = maximum over the dominated matches.**  Whenever the start event of match `p`
+(`startEv ms p = (x_p, y_p, p + len)`) is the next event of the sweep, `max_col_dp.get(y_p)` on the state reached so far
+returns a pair whose score bounds the final score (`dpScores`) of every match `q` that ends at or before `(x_p, y_p)` in both
+coordinates (`nonov`), and either there is no such match and the score is 0, or the pair is exactly (final score of `q`, `q`)
+for such a match — processing order (all dominated matches have published, nothing else with a column `≤ y_p` has) plus the
+prefix-maximum semantics of the tree (C18). -/
+theorem lcskpp_query_is_max_over_dominated (ms : List M) (k : Nat) (hk : 0 < k) (hs : ms.Pairwise lexLt)
+    (done rest : List Ev) (p : Nat) (hp : p < ms.length)
+    (hpos : sortedEvents ms k = done ++ startEv ms p :: rest) :
+    let s := done.foldl (stepEv ms k) (initSt ms k)
+    let b := Model.Fenwick.get maxNN (0, 0) s.tree (mAt ms p).2
+    (∀ q, q < ms.length → nonov k (mAt ms q) (mAt ms p) = true → (dpScores ms k).getD q 0 ≤ b.1) ∧
+    ((b.1 = 0 ∧ ∀ q, q < ms.length → nonov k (mAt ms q) (mAt ms p) = false) ∨
+     ∃ q, q < ms.length ∧ nonov k (mAt ms q) (mAt ms p) = true ∧ b = ((dpScores ms k).getD q 0, q)) := by
+  have hI := sweep_inv_prefix hk hs hpos
+  obtain ⟨_, hbefore, hcomplete⟩ := split_facts (sortedEvents_pairwise ms k) (sortedEvents_nodup ms k) hpos
+  obtain ⟨h1, h2⟩ := query_spec hk hs hI hp hbefore hcomplete
+  have hub : ∀ q, q < ms.length → nonov k (mAt ms q) (mAt ms p) = true →
+      (dpScores ms k).getD q 0 ≤ (Model.Fenwick.get maxNN (0, 0) (done.foldl (stepEv ms k) (initSt ms k)).tree (mAt ms p).2).1 := by
+    intro q hq hn
+    rw [h1]
+    exact le_max0_of_mem (List.mem_map.mpr ⟨(mAt ms q, F ms k q), List.mem_filter.mpr ⟨mem_table_F hq, hn⟩, rfl⟩)
+  refine ⟨hub, ?_⟩
+  by_cases hpos' : 0 < (Model.Fenwick.get maxNN (0, 0) (done.foldl (stepEv ms k) (initSt ms k)).tree (mAt ms p).2).1
+  · right
+    obtain ⟨q, hq, hb2, _, hn, hb1⟩ := h2 hpos'
+    exact ⟨q, hq, hn, Prod.ext hb1 hb2⟩
+  · left
+    refine ⟨by omega, ?_⟩
+    intro q hq
+    rw [Bool.eq_false_iff]; intro hn
+    have h3 := hub q hq hn
+    have h4 : k ≤ (dpScores ms k).getD q 0 := k_le_F hk hs hq
+    omega
+
+/-- the hypothesis of the previous theorem is satisfiable for every match: its start event occurs in the sorted vector -/
+theorem lcskpp_start_event_occurs (ms : List M) (k : Nat) (p : Nat) (hp : p < ms.length) :
+    ∃ done rest, sortedEvents ms k = done ++ startEv ms p :: rest :=
+  List.append_of_mem ((mem_sortedEvents ms k _).mpr ⟨p, hp, Or.inl rfl⟩)
+
+/-- **the sweep computes the forward recurrence**: after the loop the score of every `dp` cell is the cell of
+`dpScores` (the recurrence evaluated directly, `dp_cell_is_best_chain_ending`), for every strictly sorted match list
+and `k ≥ 1` -/
+theorem lcskpp_model_dp_is_recurrence (ms : List M) (k : Nat) (hk : 0 < k) (hs : ms.Pairwise lexLt) (q : Nat)
+    (hq : q < ms.length) : ((sweep ms k).dp.getD q (0, 0)).1 = (dpScores ms k).getD q 0 :=
+  final_cell hk hs hq
+
+/-- **the mirror model of `lcskpp` is optimal.**  For every strictly sorted (duplicate-free) match list and every
+`k ≥ 1` the model — assertion, event sort with its tie-break, sweep with the max-Fenwick tree (C18 model), diagonal
+lookup, `best_dp`, traceback with fuel `len + 1` — returns a result (no assertion failure, the traceback loop ends by its
+own condition); the path is a valid chain over the matches; its LCSk++ score is the reported score; that score is the
+reference optimum `lcskDP`; and no valid chain over the matches scores more. -/
+theorem lcskpp_model_optimal (ms : List M) (k : Nat) (hk : 0 < k) (hs : ms.Pairwise lexLt) :
+    ∃ r, lcskpp ms k = .ok r ∧ validChain ms k r.path = true ∧ score k (pathMatches ms r.path) = r.score ∧
+      r.score = lcskDP ms k ∧ ∀ c, Chain k c → (∀ e ∈ c, e ∈ ms) → score k c ≤ r.score := by
+  obtain ⟨r, h1, h2, h3, h4, _⟩ := lcskpp_model_ok hk hs
+  have hx := sorted_x_of_lex hs
+  have hopt := dpScores_max_eq_opt ms k hk hx
+  refine ⟨r, h1, h3, by rw [h4, h2], by rw [h2, hopt], ?_⟩
+  intro c hc hsub
+  rw [h2, hopt]
+  exact lcskDP_upper ms k hk hx c hc hsub
+
+/-- composition with the k-mer matcher's reference: on the matches of any two sequences the model is optimal -/
+theorem lcskpp_model_optimal_on_kmer_matches (x y : List Nat) (k : Nat) (hk : 0 < k) :
+    ∃ r, lcskpp (kmerMatches x y k) k = .ok r ∧ validChain (kmerMatches x y k) k r.path = true ∧
+      r.score = lcskDP (kmerMatches x y k) k :=
+  let ⟨r, h1, h2, _, h4, _⟩ := lcskpp_model_optimal _ k hk (QGram.kmerMatches_sorted x y k)
+  ⟨r, h1, h2, h4⟩
+
+example : ∃ r, lcskpp [(0, 0), (1, 1), (2, 2), (5, 5), (6, 9)] 3 = .ok r ∧ r.score = 8 ∧
+    validChain [(0, 0), (1, 1), (2, 2), (5, 5), (6, 9)] 3 r.path = true := by
+  obtain ⟨r, h1, h2, _, h4, _⟩ := lcskpp_model_optimal [(0, 0), (1, 1), (2, 2), (5, 5), (6, 9)] 3 (by decide)
+    (by simp [lexLt])
+  exact ⟨r, h1, by rw [h4]; decide, h2⟩
+
+/-- the chains returned by the `lcskpp` model list their indices in strictly ascending order (what
+`sdpkpp_union_lcskpp_path` relies on when it binary-searches the path) -/
+theorem lcskpp_model_path_ascending (ms : List M) (k : Nat) (hk : 0 < k) (hs : ms.Pairwise lexLt) :
+    ∃ r, lcskpp ms k = .ok r ∧ r.path.Pairwise (· < ·) :=
+  let ⟨r, h1, _, _, _, _, h6⟩ := lcskpp_model_ok hk hs
+  ⟨r, h1, h6⟩
+
+end lcskpp_model
+
+/-! ## `sdpkpp` and `sdpkpp_union_lcskpp_path` (mirror models `RbV/Model/Sdpkpp.lean`) -/
+section sdpkpp_model
+open RbV.Model.Lcskpp RbV.Model.Sdpkpp RbV.Lemmas.Lcskpp RbV.Lemmas.Sdpkpp
+
+/-- **the mirror model of `sdpkpp` returns a valid chain** — for every strictly sorted match list, every `k ≥ 1` and all
+scoring parameters (`match_score`, magnitudes of `gap_open` / `gap_extend`): no assertion failure, the traceback ends by
+its own condition, every index is in range and every step is a diagonal continuation by one or a start at least `k`
+later in both sequences; the chain is non-empty when there are matches and lists its indices in ascending order.
+(Validity only — the property does not fix the gap-penalised score.) -/
+theorem sdpkpp_model_valid (ms : List M) (k msc gapOpen gapExtend : Nat) (hk : 0 < k) (hs : ms.Pairwise lexLt) :
+    ∃ r, sdpkpp ms k msc gapOpen gapExtend = .ok r ∧ validChain ms k r.path = true ∧ (ms ≠ [] → r.path ≠ []) ∧
+      r.path.Pairwise (· < ·) :=
+  sdpkpp_model_ok msc gapOpen gapExtend hk hs
+
+/-- what the Fenwick tree over `PrevPtr` records needs from C18: the record maximum is associative, commutative and has
+the default record as identity (so a query is the maximum of the updates of the prefix) -/
+theorem prevptr_max_is_monoid :
+    (∀ a b c : PrevPtr, maxPP (maxPP a b) c = maxPP a (maxPP b c)) ∧ (∀ a b : PrevPtr, maxPP a b = maxPP b a) ∧
+    (∀ a : PrevPtr, maxPP dfltPP a = a) :=
+  ⟨maxPP_assoc, maxPP_comm, maxPP_id⟩
+
+/-- **splicing is sound**: for any two valid chains, replacing the part of the first between the first and the last
+match of the second (looked up in the first; nothing cut on the side where the lookup fails) by the second chain gives a
+valid chain -/
+theorem union_of_valid_chains_valid (ms : List M) (k : Nat) (lp sp : List Nat) (hl : validChain ms k lp = true)
+    (hsp : validChain ms k sp = true) (first last : Nat) (hf : sp.head? = some first) (hla : sp.getLast? = some last) :
+    validChain ms k (lp.take ((findIdx first 0 lp).getD 0) ++ sp ++
+      lp.drop (match findIdx last 0 lp with | some ind => ind + 1 | none => lp.length)) = true :=
+  union_valid ms k lp sp hl hsp first last hf hla
+
+/-- **the mirror model of `sdpkpp_union_lcskpp_path` returns a valid chain** for every strictly sorted match list,
+`k ≥ 1` and all scoring parameters -/
+theorem union_model_valid (ms : List M) (k msc gapOpen gapExtend : Nat) (hk : 0 < k) (hs : ms.Pairwise lexLt) :
+    ∃ u, unionPath ms k msc gapOpen gapExtend = .ok u ∧ validChain ms k u = true :=
+  unionPath_model_ok msc gapOpen gapExtend hk hs
+
+example : ∃ r, sdpkpp [(0, 0), (1, 1), (2, 2), (5, 5), (6, 9)] 3 1 2 1 = .ok r ∧
+    validChain [(0, 0), (1, 1), (2, 2), (5, 5), (6, 9)] 3 r.path = true ∧ r.path ≠ [] := by
+  obtain ⟨r, h1, h2, h3, _⟩ := sdpkpp_model_valid [(0, 0), (1, 1), (2, 2), (5, 5), (6, 9)] 3 1 2 1 (by decide) (by simp [lexLt])
+  exact ⟨r, h1, h2, h3 (by simp)⟩
+
+example : validChain [(0, 0), (1, 1), (2, 2), (5, 5), (6, 9)] 3 [0, 1, 4] = true ∧
+    validChain [(0, 0), (1, 1), (2, 2), (5, 5), (6, 9)] 3 [1, 2, 3] = true ∧
+    ([0, 1, 4].take ((findIdx 1 0 [0, 1, 4]).getD 0) ++ [1, 2, 3] ++
+      [0, 1, 4].drop (match findIdx 3 0 [0, 1, 4] with | some ind => ind + 1 | none => 3)) = [0, 1, 2, 3] := by decide
+
+end sdpkpp_model
+
+section expand_then_chain
+open RbV.Model.Expand RbV.Model.Lcskpp
+
+/-- composition: chaining the expansion with the `lcskpp` model is optimal over the expanded list -/
+theorem lcskpp_on_expansion_optimal (seq1 seq2 : List Nat) (k : Nat) (ms : List M) (allowed : Nat) (hk : 0 < k)
+    (hs : ms.Pairwise lexLt) :
+    ∃ ex r, expandKmerMatches seq1 seq2 k ms allowed = .ok ex ∧ lcskpp ex k = .ok r ∧ validChain ex k r.path = true ∧
+      r.score = lcskDP ex k :=
+  let ⟨ex, h1, h2, _⟩ := expand_model_sorted seq1 seq2 k ms allowed hs
+  let ⟨r, h3, h4, _, h5, _⟩ := lcskpp_model_optimal ex k hk h2
+  ⟨ex, r, h1, h3, h4, h5⟩
+
+end expand_then_chain
 
 /-- the score counts `k` for the first match and every non-overlapping step and `1` for a diagonal continuation -/
 theorem score_counts (k : Nat) (a b : M) (r : List M) :
